@@ -145,6 +145,8 @@ type gEnt struct {
 
 type gWorld struct {
 	relQueries int // relation filters with a target queried through the generic API
+	illegal    int // illegal generic calls that were refused
+	illWeight  int
 	Wg, Wc     *ecs.World
 	ids        []ecs.ID
 	ents       []*gEnt
@@ -622,6 +624,8 @@ func (g *gWorld) apply(op *gOp) string {
 		return g.applyExchange(op, ent, targetOK)
 	case "filter":
 		return g.applyFilter(op, ad, targetOK)
+	case "ill":
+		return g.applyIll(op, ad)
 	}
 	return ""
 }
